@@ -118,8 +118,35 @@ def _reuse_case(case):
     key = {"d": d, "oracle_kind": "object_reuse"}
     fails = []
     cs = CombiScheme(d)
+    twin = CombiScheme(d)          # receives the valid operations only
     for step, op in enumerate(case["ops"]):
         kind, lmin, lmax = op
+        if kind == "refused_init":
+            # an initialisation request the class refuses (maximum below minimum level, negative level): the caller catches the
+            # exception; the object must be what it was - same sets, same scheme, same answer to the next refinement request
+            try:
+                cs.init_adaptive_combi_scheme(lmax, lmin)
+                refused = False
+            except Exception:
+                refused = True
+            if not refused:
+                continue        # accepted after all: nothing to compare (the twin did not get it)
+            same = cs.initialized_adaptive == twin.initialized_adaptive
+            if same and cs.initialized_adaptive:
+                same = (cs.old_index_set == twin.old_index_set and cs.active_index_set == twin.active_index_set and
+                        _scheme_dict(cs.getCombiScheme(do_print=False)) == _scheme_dict(twin.getCombiScheme(do_print=False)))
+                if same and cs.active_index_set:
+                    a0 = sorted(cs.active_index_set)[-1]
+                    r1, r2 = cs.update_adaptive_combi(list(a0)), twin.update_adaptive_combi(list(a0))
+                    same = (r1 == r2 and cs.old_index_set == twin.old_index_set and cs.active_index_set == twin.active_index_set and
+                            _scheme_dict(cs.getCombiScheme(do_print=False)) == _scheme_dict(twin.getCombiScheme(do_print=False)))
+            elif same:
+                same = _scheme_dict(cs.getCombiScheme(1, 2, do_print=False)) == _scheme_dict(twin.getCombiScheme(1, 2, do_print=False))
+            if not same:
+                fails.append(fail("refused_initialisation_changes_object", "ops %r step %d: after the refused init_adaptive_combi_scheme(%d,%d) the object differs from "
+                                  "one that never received the request" % (case["ops"][:step + 1], step, lmax, lmin), key))
+                break
+            continue
         if kind == "closed":
             if cs.initialized_adaptive:
                 continue          # after an adaptive initialisation getCombiScheme ignores lmin/lmax by design
@@ -130,6 +157,7 @@ def _reuse_case(case):
                 break
         else:
             cs.init_adaptive_combi_scheme(lmax, lmin)
+            twin.init_adaptive_combi_scheme(lmax, lmin)
             old, act = ref.initial_sets(d, lmin, lmax)
             got = _scheme_dict(cs.getCombiScheme(do_print=False))
             if cs.old_index_set != old or cs.active_index_set != act or got != ref.standard_scheme(d, lmin, lmax):
@@ -138,6 +166,7 @@ def _reuse_case(case):
             # one refinement in between so that a later re-initialisation has something to forget
             a0 = sorted(cs.active_index_set)[0]
             cs.update_adaptive_combi(list(a0))
+            twin.update_adaptive_combi(list(a0))
     return {"failures": fails, "canon": ("reuse", core.config_key(case["config"]), tuple(map(tuple, case["ops"]))), "succ": [], "evals": len(case["ops"])}
 
 
@@ -265,6 +294,14 @@ def main(ctx):
                 reuse.append({"config": {"d": d}, "history": [], "ops": [["closed", a, b] for a, b in seq]})
         for seq in itertools.product(pairs[:5], repeat=2):
             reuse.append({"config": {"d": d}, "history": [], "ops": [["init", a, b] for a, b in seq]})
+    # refused initialisation requests between valid operations (swapped arguments, negative levels), on fresh and initialised objects
+    bad = [(3, 1), (2, 0), (1, -1), (4, 2)]          # (lmin, lmax) pairs that init_adaptive_combi_scheme refuses
+    for d in (1, 2, 3):
+        for b in bad:
+            reuse.append({"config": {"d": d}, "history": [], "ops": [["refused_init", b[0], b[1]], ["closed", 1, 2]]})
+            for first in pairs[:5]:
+                reuse.append({"config": {"d": d}, "history": [], "ops": [["init", first[0], first[1]], ["refused_init", b[0], b[1]]]})
+                reuse.append({"config": {"d": d}, "history": [], "ops": [["init", first[0], first[1]], ["refused_init", b[0], b[1]], ["init", 1, 2]]})
     for task, res in zip(reuse, ctx.map(reuse)):
         ctx.absorb(task, res, state_key=res["canon"], group="object_reuse")
     ctx.bounds["object_reuse_sequences"] = len(reuse)
